@@ -260,3 +260,37 @@ func C17OneShotCloserWindow() {
 	}
 	sym.Reach("closer-window-done")
 }
+
+// C17CloserBeforeQueueClose: whichever way a handler ends (RemoveHandler, Close of the end point, the
+// peer going away, its own non-keep filter), its close callback has been invoked by the time its
+// queue is closed: a consumer that sees its queue closed can rely on the callback having run.
+func C17CloserBeforeQueueClose() {
+	s := newZZStream()
+	e := NewEndPoint(s)
+	queue := make(chan *Message, 2)
+	var closerRan int32
+	how := sym.Choose("how-the-handler-ends", 4)
+	id := e.MakeHandler(func(hdr *Header) (bool, bool) { return true, how != 3 }, queue, func(err error) {
+		atomic.AddInt32(&closerRan, 1)
+	})
+	observed := make(chan int32, 1)
+	go func() {
+		for range queue { // ends when the queue is closed
+		}
+		observed <- atomic.LoadInt32(&closerRan)
+	}()
+	switch how {
+	case 0:
+		sym.Assert(e.RemoveHandler(id) == nil, "closer-order/remove-ok")
+	case 1:
+		e.Close()
+	case 2:
+		s.peerClose()
+	default:
+		s.inject(NewMessage(NewHeader(Reply, 1, 1, 1, 1), nil))
+	}
+	sym.Quiesce()
+	sym.Assert(<-observed == 1, "closer-order/queue-closed-before-the-close-callback-ran")
+	sym.Assert(atomic.LoadInt32(&closerRan) == 1, "closer-exactly-once")
+	sym.Reach("closer-order-done")
+}
